@@ -417,8 +417,8 @@ _TEXT = st.text(alphabet=st.sampled_from(list('abcXYZ 09_-.,:;/<>&"\'%\\é中\n\
 _KIND_WEIGHTS = (['function'] * 4 + ['callback'] * 3 + ['record'] * 4 + ['union'] * 2 + ['boxed'] + ['enumeration'] * 2
                  + ['bitfield'] * 2 + ['class'] * 5 + ['interface'] * 3 + ['constant'] * 3 + ['alias'] * 2)
 # C09: entry kinds when biased to container shapes
-_BIAS_WEIGHTS = (['function'] * 5 + ['callback'] * 5 + ['record'] * 10 + ['union'] * 8 + ['boxed'] + ['enumeration'] * 6
-                 + ['bitfield'] * 6 + ['class'] * 20 + ['interface'] * 14 + ['constant'] * 10 + ['alias'] * 3)
+_BIAS_WEIGHTS = (['function'] * 8 + ['callback'] * 8 + ['record'] * 8 + ['union'] * 10 + ['boxed'] + ['enumeration'] * 9
+                 + ['bitfield'] * 9 + ['class'] * 14 + ['interface'] * 8 + ['constant'] * 10 + ['alias'] * 3)
 SHAPE_SECTIONS = ('fields', 'properties', 'methods', 'signals', 'vfuncs', 'constants')
 _NAMEBASE = {'function': 'fn', 'callback': 'Cb', 'record': 'Rec', 'union': 'Un', 'boxed': 'Bx', 'enumeration': 'En',
              'bitfield': 'Fl', 'class': 'Obj', 'interface': 'If', 'constant': 'K', 'alias': 'Al'}
